@@ -19,7 +19,6 @@ inductive ETok where
   | ch (b : UInt8)
   deriving Repr, Inhabited
 
-def isDigit (b : UInt8) : Bool := 48 ≤ b && b ≤ 57
 def isAlpha (b : UInt8) : Bool := (65 ≤ b && b ≤ 90) || (97 ≤ b && b ≤ 122)
 def isAlnum (b : UInt8) : Bool := isAlpha b || isDigit b
 /-- ragel `space`: `\t \n \v \f \r` and space -/
